@@ -1,4 +1,6 @@
-use crate::{LinearModel, LpSolution, MILPValue, SolverError, solve_milp_lp_problem};
+use crate::{
+    Comparison, LinearModel, LpSolution, MILPValue, SolverError, solve_milp_lp_problem,
+};
 use indexmap::IndexMap;
 
 /// Solves any kind of linear programming problem with the built-in MILP solver.
@@ -46,6 +48,18 @@ use indexmap::IndexMap;
 /// ```
 pub fn auto_solver(lp: &LinearModel) -> Result<LpSolution<MILPValue>, SolverError> {
     if lp.domain().is_empty() {
+        // A variable-free model can still carry constant rows: the linearizer keeps a
+        // false constant constraint as a `0 = 1`-style row, and such a model is infeasible.
+        let holds = |c: &crate::LinearConstraint| match c.constraint_type() {
+            Comparison::LessOrEqual => 0.0 <= c.rhs(),
+            Comparison::GreaterOrEqual => 0.0 >= c.rhs(),
+            Comparison::Equal => 0.0 == c.rhs(),
+            Comparison::Less => 0.0 < c.rhs(),
+            Comparison::Greater => 0.0 > c.rhs(),
+        };
+        if !lp.constraints().iter().all(holds) {
+            return Err(SolverError::Infeasible);
+        }
         // A variable-free model still carries a constant objective (the offset).
         return Ok(LpSolution::new(
             vec![],
